@@ -17,9 +17,23 @@ Contract.
         observable and compilation is deterministic)
   value copies:  copy.copy(s), s._clone() have the same snapshot (incl. key); pickle.loads(pickle.dumps(s)) the same
         SQL and parameters (its Table objects are new, so the key is not compared).
+  deep clones (CLONES below) are value copies too:  visitors.cloned_traverse(s, {}, {}) (also with no-op visitors),
+        visitors.replacement_traverse(s, {}, lambda e: None), sql.util.ClauseAdapter / ColumnAdapter(<alias of a table
+        that does not occur in s>).traverse(s), a clone of a clone, sql.util._deep_annotate(s, {..})  compile to the same
+        SQL and parameters on every dialect (or raise the same exception type).  The cache key of a deep clone is not
+        compared: a clone need not preserve object sharing inside the statement, which the key tracks by design (C02).
+        (_deep_deannotate is not a copy: it hands back the original elements.)
+  the copy relation commutes with the generative calls, and a clone is as immutable as its source:
+        c = cloned_traverse(s);  r = c.m(args)   =>   sql(r) == sql(s.m(args))  and  sql(c) == sql(s) still.
 
 Scope: all call chains of length <= L (quick 2, thorough 3) over a catalogue of canonical calls per method, from a few
-base statements per class; every ancestor re-snapshotted after every call.
+base statements per class; every ancestor re-snapshotted after every call.  Every statement reached by <= 2 calls is
+copied: copy.copy / _clone / pickle always; all deep-clone kinds for the base statements and the statements reached by
+one call, two of them in rotation (so that every kind meets every first call and every second call) for the statements
+reached by two calls.  Name dimension: besides the fixed schema a / b / c (plain names) the classes `*[names]` run the
+chains over table `n` whose column names need sanitizing / escaping when they become bind-parameter names or labels
+(NAMES: leading / trailing / double underscore, parentheses, brackets, space, dot, percent, colon, leading digit),
+ad-hoc column()s and explicit bindparam()s (unique and not) with such names, and dict-form values() keyed by them.
 """
 import ast
 import copy
@@ -83,6 +97,57 @@ DELETE_CALLS = [
 TEXT_CALLS = [["bindparams", [], {"p": 5}], ["bindparams", [], {"p": 6, "q": "z"}], ["bindparams", [["E", ["bp", "p", 7, {"type": ["Integer"]}]]]], ["execution_options", [], {"foo": 1}],
               ["params", [], {"p": 11}], ["columns", [["E", ["col", "a", ["Integer"]]]]]]
 
+# ---- name dimension: identifiers that must be sanitized / escaped when they become bind names or labels
+NAMES = ["_data", "flag_", "(odd)", "a b", "a.b", "per%cent", "__dunder__", "q:r", "[br]", "1st"]
+
+
+def _world():
+    """the fixed schema + table n(id, <NAMES>) — added to this process's copy of the shared world only"""
+    w = C.world()
+    if "n" not in w.tables:
+        from sqlalchemy import Column, Integer, String, Table
+        w.tables["n"] = Table("n", w.metadata, Column("id", Integer, primary_key=True), Column("_data", String(30)),
+                              *[Column(x, Integer) for x in NAMES[1:]])
+    return w
+
+
+_world()
+
+
+def _nc(name):
+    return ["c", "n", name]
+
+
+NID = _nc("id")
+NAME_WHERES = [["op", "==", _nc("_data"), "x"], ["in", _nc("flag_"), [1, 2]], ["op", ">", _nc("(odd)"), 7], ["op", "==", _nc("a b"), 1], ["op", "==", _nc("a.b"), 2],
+               ["op", "<", _nc("per%cent"), 3], ["between", _nc("__dunder__"), 1, 9], ["op", "!=", _nc("q:r"), 4], ["op", "==", _nc("[br]"), ["op", "+", _nc("1st"), 5]],
+               ["op", "==", ["col", "_adhoc"], 6], ["op", "==", ["col", "adhoc_("], ["bp", "_p", 7]], ["op", ">", NID, ["bp", "p_", 8, {"unique": True}]],
+               ["op", "<", NID, ["bp", "x(y)", 9, {"unique": True}]], ["op", "==", _nc("_data"), ["bp", "_data", "z"]], ["in_bp", _nc("flag_"), "_ids", [4, 5]],
+               ["op", "like", _nc("_data"), "_%"], ["op", "==", ["fn", "coalesce", [_nc("flag_"), 0]], 1]]
+NAME_SELECT_CALLS = [["where", [["E", w_]]] for w_ in NAME_WHERES] + [
+    ["filter_by", [], {"_data": "v"}], ["filter_by", [], {"flag_": 1, "(odd)": 2}], ["having", [["E", ["op", ">", ["fn", "max", [_nc("flag_")]], 1]]]],
+    ["order_by", [["E", ["un", "desc", _nc("_data")]]]], ["group_by", [["E", _nc("(odd)")]]], ["add_columns", [["E", _nc("per%cent")]]],
+    ["add_columns", [["E", ["label", ["op", "+", _nc("flag_"), 1], "_lbl_"]]]], ["with_only_columns", [["E", _nc("a.b")], ["E", _nc("a b")]]],
+    ["limit", [5]], ["offset", [2]], ["distinct", []], ["set_label_style", [["LS", "tcol"]]], ["set_label_style", [["LS", "none"]]], ["join", [["T", "n:_n1"], ["E", ["op", "==", NID, ["c", "n:_n1", "flag_"]]]]],
+    ["add_cte", [["F", ["cte", {"k": "select", "cols": [_nc("_data")], "where": [["op", "==", _nc("flag_"), 1]]}, "_cw"]]]], ["with_for_update", []], ["params", [], {"_p": 11}],
+    ["where", [["E", ["in_sub", NID, {"k": "select", "cols": [_nc("(odd)")], "where": [["op", "==", _nc("_data"), "s"]]}]]]],
+]
+NAME_VALUES = [["values", [{"_data": "x"}]], ["values", [{"flag_": 1, "(odd)": 2, "a b": 3}]], ["values", [{"a.b": 1, "per%cent": 2, "q:r": 3, "[br]": 4, "1st": 5, "__dunder__": 6}]],
+               ["values", [{"_data": ["E", ["bp", "_v", "q"]]}]], ["values", [{"flag_": ["E", ["op", "+", _nc("flag_"), 1]]}]]]
+NAME_DML_COMMON = [["returning", [["E", NID], ["E", _nc("_data")]]], ["returning", [["E", _nc("(odd)")]]], ["prefix_with", ["/*p*/"]], ["add_cte", [["F", ["cte", {"k": "select", "cols": [_nc("_data")]}, "_cw"]]]]]
+NAME_INSERT_CALLS = NAME_VALUES[:4] + [["values", [[{"_data": "x", "flag_": 1}, {"_data": "y", "flag_": 2}]]], ["from_select", [["_data", "flag_"], ["S", {"k": "select", "cols": [_nc("_data"), _nc("(odd)")],
+                                                                                                                  "where": [["op", ">", _nc("flag_"), 1]]}]]]] + NAME_DML_COMMON
+NAME_PG_CALLS = [["on_conflict_do_nothing", [], {"index_elements": ["id"]}], ["on_conflict_do_update", [], {"index_elements": ["id"], "set_": {"_data": "u", "(odd)": 3}}],
+                 ["on_conflict_do_update", [], {"index_elements": [["E", NID]], "set_": {"flag_": 4}, "where": ["E", NAME_WHERES[0]]}]]
+NAME_MYSQL_CALLS = [["on_duplicate_key_update", [{"_data": "d", "per%cent": 6}]], ["on_duplicate_key_update", [[["TUP", ["flag_", 1]], ["TUP", ["(odd)", 2]]]]]]
+NAME_UPDATE_CALLS = [["where", [["E", w_]]] for w_ in NAME_WHERES[:9] + NAME_WHERES[10:14]] + NAME_VALUES + [["filter_by", [], {"_data": "v"}],
+                    ["ordered_values", [["TUP", [["E", _nc("flag_")], 1]], ["TUP", [["E", _nc("_data")], "q"]]]]] + NAME_DML_COMMON
+NAME_DELETE_CALLS = [["where", [["E", w_]]] for w_ in NAME_WHERES[:9] + NAME_WHERES[10:14]] + [["filter_by", [], {"(odd)": 2}]] + NAME_DML_COMMON
+NAME_TEXT_CALLS = [["bindparams", [], {"_p": 5}], ["bindparams", [], {"_p": 6, "p_": "z"}], ["bindparams", [["E", ["bp", "_p", 7, {"type": ["Integer"]}]]]], ["params", [], {"p_": 11}],
+                   ["columns", [["E", ["col", "_c", ["Integer"]]]]], ["execution_options", [], {"foo": 1}]]
+N1 = {"k": "select", "cols": [NID, _nc("_data")]}
+N2 = {"k": "select", "cols": [["tbl", "n"]], "where": [["op", "==", _nc("flag_"), ["bp", "_p", 1]]], "order_by": [_nc("(odd)")]}
+
 S1 = {"k": "select", "cols": [AID, AX]}
 S2 = {"k": "select", "cols": [AID, BX], "joins": [["b", None]], "where": [["op", "==", AS_, ["bp", "p", "v"]]], "order_by": [AID]}
 S3 = {"k": "select", "cols": [["ent", "A"]], "where": [["op", ">", ["attr", "A", "x"], 1]]}
@@ -97,6 +162,17 @@ BASES = {
     "Update": ([{"k": "update", "t": "a"}, {"k": "update", "t": "ent:A", "values": {"s": "k"}}], UPDATE_CALLS),
     "Delete": ([{"k": "delete", "t": "a"}, {"k": "delete", "t": "ent:A"}], DELETE_CALLS),
     "TextClause": ([{"k": "text", "sql": "select * from a where x = :p and s = :q"}], TEXT_CALLS),
+    "Select[names]": ([N1, N2], NAME_SELECT_CALLS),
+    "CompoundSelect[names]": ([{"k": "union", "selects": [{"k": "select", "cols": [_nc("flag_")], "where": [NAME_WHERES[0]]}, {"k": "select", "cols": [_nc("(odd)")], "where": [NAME_WHERES[2]]}]}],
+                              [["order_by", [["E", ["name", "flag_"]]]], ["limit", [5]], ["offset", [2]], ["add_cte", [["F", ["cte", {"k": "select", "cols": [_nc("_data")]}, "_cw"]]]], ["params", [], {"_p": 11}],
+                               ["set_label_style", [["LS", "tcol"]]]]),
+    "Insert[names]": ([{"k": "insert", "t": "n"}], NAME_INSERT_CALLS),
+    "Insert[postgresql][names]": ([{"k": "insert", "t": "n", "fam": "pg", "values": {"id": 1}}], NAME_INSERT_CALLS[:5] + NAME_PG_CALLS),
+    "Insert[sqlite][names]": ([{"k": "insert", "t": "n", "fam": "sqlite", "values": {"id": 1}}], NAME_INSERT_CALLS[:3] + NAME_PG_CALLS),
+    "Insert[mysql][names]": ([{"k": "insert", "t": "n", "fam": "mysql", "values": {"id": 1}}], NAME_INSERT_CALLS[:3] + NAME_MYSQL_CALLS),
+    "Update[names]": ([{"k": "update", "t": "n"}], NAME_UPDATE_CALLS),
+    "Delete[names]": ([{"k": "delete", "t": "n"}], NAME_DELETE_CALLS),
+    "TextClause[names]": ([{"k": "text", "sql": "select * from n where flag_ = :_p and \"(odd)\" = :p_"}], NAME_TEXT_CALLS),
 }
 DELEGATING = {"filter", "filter_by", "outerjoin", "outerjoin_from", "set_label_style", "reduce_columns", "ordered_values", "on_conflict_do_nothing", "on_conflict_do_update",
               "on_duplicate_key_update", "columns"}
@@ -287,10 +363,54 @@ def _pickle(stmt):
     return pickle.loads(pickle.dumps(stmt))
 
 
-def copies(stmt, snap):
-    """value copies have the same snapshot; returns [(how, what changed, detail, payload)]"""
+_UNRELATED = None
+
+
+def _unrelated():
+    """an alias of a table that occurs in no statement of the scope: adapting to it replaces nothing, it only clones"""
+    global _UNRELATED
+    if _UNRELATED is None:
+        from sqlalchemy import Column, Integer, MetaData, Table
+        _UNRELATED = Table("zz_unrelated", MetaData(), Column("zz_q", Integer)).alias("zz_al")
+    return _UNRELATED
+
+
+def _noop(element):
+    return None
+
+
+def _clone_kinds():
+    """(name, copy function, compare the cache key too).  The deep clones are compared on SQL + parameters only: a clone
+    need not preserve object sharing inside the statement (an alias that is both a join target and the table of a column
+    in the ON clause becomes two clones), which the cache key tracks by design — key equality is C02's subject."""
+    from sqlalchemy.sql import util as sql_util, visitors
+    return [
+        ("cloned_traverse", lambda s: visitors.cloned_traverse(s, {}, {}), False),
+        ("cloned_traverse+visitors", lambda s: visitors.cloned_traverse(s, {}, {"binary": _noop, "bindparam": _noop, "column": _noop, "select": _noop}), False),
+        ("replacement_traverse", lambda s: visitors.replacement_traverse(s, {}, _noop), False),
+        ("ClauseAdapter", lambda s: sql_util.ClauseAdapter(_unrelated()).traverse(s), False),
+        ("ColumnAdapter", lambda s: sql_util.ColumnAdapter(_unrelated()).traverse(s), False),
+        ("clone_of_clone", lambda s: visitors.cloned_traverse(visitors.replacement_traverse(s, {}, _noop), {}, {}), False),
+        ("deep_annotate", lambda s: sql_util._deep_annotate(s, {"c03": 1}), False),
+    ]
+
+
+CLONES = ["cloned_traverse", "cloned_traverse+visitors", "replacement_traverse", "ClauseAdapter", "ColumnAdapter", "clone_of_clone", "deep_annotate"]
+
+
+def deep_clone(stmt):
+    from sqlalchemy.sql import visitors
+    return visitors.cloned_traverse(stmt, {}, {})
+
+
+def copies(stmt, snap, rotate=None):
+    """value copies have the same snapshot; returns [(how, what changed, detail, payload)].  rotate=None: all deep-clone
+    kinds; rotate=i: the two kinds i and i+3 (mod the number of kinds)"""
     fails = []
-    for how, f, with_key in (("copy.copy", copy.copy, True), ("_clone", lambda s: s._clone(), True), ("pickle", _pickle, False)):
+    kinds = _clone_kinds()
+    if rotate is not None:
+        kinds = [kinds[rotate % len(kinds)], kinds[(rotate + 3) % len(kinds)]]
+    for how, f, with_key in [("copy.copy", copy.copy, True), ("_clone", lambda s: s._clone(), True), ("pickle", _pickle, False)] + kinds:
         try:
             c2 = f(stmt)
         except Exception as e:  # noqa: BLE001
@@ -302,6 +422,24 @@ def copies(stmt, snap):
         if df:
             fails.append((how, what_changed(ref, s2) if with_key else "sql[%s]" % ",".join(df), "snapshot differs on %s" % df, dict(differs=df, before=_j(ref, df), after=_j(s2, df))))
     return fails
+
+
+def clone_then_call(cur, call, snap_of_cur, snap_of_result):
+    """the copy relation commutes with the generative call: clone(cur).m(args) has the SQL + parameters of cur.m(args);
+    and the frame condition holds for a clone as receiver: the call leaves clone(cur) as it was (== snapshot of cur)"""
+    cl = deep_clone(cur)
+    try:
+        r2 = apply_call(cl, call)
+    except Exception as e:  # noqa: BLE001
+        return [("clone+call", "raised[%s]" % type(e).__name__, "clone(s).%s(..) raised %s: %s (s.%s(..) did not)" % (call[0], type(e).__name__, str(e)[:120], call[0]), None)]
+    out = []
+    for how, obj, ref, what in (("clone+call", r2, snap_of_result, "snapshot of clone(s).%s(..) differs from s.%s(..)" % (call[0], call[0])),
+                                ("clone+call:frame", cl, snap_of_cur, "clone(s) changed by clone(s).%s(..)" % call[0])):
+        s2 = snapshot(obj, False)
+        df = snap_diff(ref[:-1], s2)
+        if df:
+            out.append((how, "sql[%s]" % ",".join(df), "%s on %s" % (what, df), dict(differs=df, before=_j(ref, df), after=_j(s2, df))))
+    return out
 
 
 # ------------------------------------------------------------------------------------------------ worker
@@ -317,6 +455,8 @@ def _tasks(tier):
 
 def _depth(tier, label, bi):
     if tier == "quick":
+        return 2
+    if label.endswith("[names]"):
         return 2
     return 3 if (label != "Select" or bi in (0, 2)) else 2
 
@@ -367,8 +507,11 @@ def _worker(shard, nshards, tier, seed):
                 snaps[k] = now
         if len(npath) <= 2 and (depth == 1 or len(npath) == 1):
             out["copies"] += 1
-            for how, what, detail, payload in copies(nxt, ns):
+            for how, what, detail, payload in copies(nxt, ns, rotate=None if len(npath) == 1 else out["copies"]):
                 fail("copy[%s].%s" % (how, what), label, base, npath, detail, payload)
+            if len(npath) == 1 or out["copies"] % 4 == 0:
+                for how, what, detail, payload in clone_then_call(cur, call, snaps[-1], ns):
+                    fail("copy[%s].%s" % (how, what), label, base, npath, detail, payload)
             ns = snapshot(nxt)                      # a copy's compilation may have touched shared state (reported above)
         if depth == 1:
             out["chains"] += 1
@@ -423,7 +566,7 @@ def run(run, tier, seed, args):
     C.report(run, failures)
     covered, uncovered = {}, {}
     for label, ms in found.items():
-        have = {k.split(".", 1)[1] for k in methods if k.startswith(label + ".")}
+        have = {k.split(".", 1)[1] for k in methods if k.startswith(label + ".") or k.startswith(label + "[names].")}
         covered[label] = sorted(m for m in ms if m in have)
         uncovered[label] = sorted(m for m in ms if m not in have)
     L = 2 if tier == "quick" else 3
@@ -432,11 +575,15 @@ def run(run, tier, seed, args):
         distinct_nontrivial=len(sql),
         rule="all call chains of length <= L over the catalogue of canonical calls, depth-first from each base statement; after every accepted call every "
              "ancestor is re-snapshotted (SQL + params on 6 dialects + a freshly computed cache key) and compared with its snapshot taken when it was created; "
+             "every statement reached by <= 2 calls is also copied (shallow copies, pickle, the deep-clone kinds) and each copy's snapshot compared with the original's; "
              "evaluations = snapshots taken; distinct_nontrivial = distinct (dialect, SQL text) of derived statements, counted by hash",
         samples=samples[:3],
         exhaustive=True,
-        scope="L = %d%s; bases: %s; catalogue sizes: %s; 6 dialects %s; copy.copy / _clone / pickle of every statement reached by <= 2 calls"
-              % (L, "" if tier == "quick" else " (Select bases 1 and 3: L = 2)", {k: len(v[0]) for k, v in BASES.items()}, {k: len(v[1]) for k, v in BASES.items()}, list(DIALECTS)),
+        scope="L = %d%s; bases: %s; catalogue sizes: %s; 6 dialects %s; copy.copy / _clone / pickle of every statement reached by <= 2 calls; deep clones %s of "
+              "every base and every statement reached by 1 call, two kinds in rotation for the statements reached by 2 calls; clone-then-call == call for every first call "
+              "and every fourth second call; classes *[names] = the same over table n with the column / ad-hoc column / bind names %s"
+              % (L, "" if tier == "quick" else " (Select bases 1 and 3, *[names]: L = 2)", {k: len(v[0]) for k, v in BASES.items()}, {k: len(v[1]) for k, v in BASES.items()}, list(DIALECTS),
+                 CLONES, NAMES + ["_adhoc", "adhoc_(", "_p", "p_", "x(y)", "_ids", "_v", "_lbl_", "_cw", "_n1"]),
         generative_calls=tot["calls"], calls_rejected_by_constructors=tot["rejected"], chains_completed=tot["chains"], copies_checked=tot["copies"],
         methods_found_mechanically=found, methods_exercised=covered, methods_not_exercised=uncovered,
         delegating_public_methods_also_exercised=sorted(DELEGATING), returned_self=rself)
@@ -454,6 +601,8 @@ def replay(data):
     kind = data.get("function", "").split(":")[0]
     if kind.startswith("copy") and not (fails and fails[-1][0] == "rejected"):
         cf = copies(chain[-1], snaps[-1])
+        if len(chain) > 1:
+            cf += clone_then_call(chain[-2], inp["calls"][-1], snaps[-2], snaps[-1])
         fails += [("copy[%s].%s" % (h, wc), len(inp["calls"]), "%s: %s" % (h, d), p) for h, wc, d, p in cf]
     real = [f for f in fails if f[0] != "rejected"]
     same = [f for f in real if f[0] == kind] if kind else real
